@@ -8,6 +8,7 @@ CONSTANTS
   LookupKinds = {"tn", "ttn", "esn"}
   FileBase = 7
   RecordHist = FALSE
+  Faults = {"ok"}
   DumpKinds = {}
 INVARIANT TypeOK
 INVARIANT FilesWellFormed
@@ -20,5 +21,7 @@ INVARIANT RemapIso
 INVARIANT RangesDisjoint
 INVARIANT ModulesSorted
 INVARIANT UnionOK
+INVARIANT ErrIffFault
+INVARIANT FailedNotLoaded
 CONSTRAINT DumpConstraint
 CHECK_DEADLOCK FALSE
